@@ -3,6 +3,8 @@
 package props
 
 import (
+	"github.com/scottyw/tetromino/gameboy/controller"
+
 	"fmt"
 
 	"verifsim/cart"
@@ -57,3 +59,7 @@ func applyBus(m *machine.Machine, ev *engine.Event) bool {
 	}
 	return true
 }
+
+func cartBuild(spec engine.CartSpec) ([]byte, error) { return cart.Build(spec) }
+
+func controllerButton(i int) controller.Button { return controller.Button(i & 7) }
